@@ -63,7 +63,8 @@ type rtT struct {
 	Vars    []vmT  `json:"vars,omitempty"`
 	Dsl     []dslT `json:"dsl,omitempty"`
 	Cluster string `json:"cluster"`
-	Bad     bool   `json:"bad,omitempty"` // NewRouteBase fails (unsupported redirect code)
+	Bad     bool   `json:"bad,omitempty"` // NewRouteBase fails (unsupported redirect code, or BadRegex)
+	BadRegex bool  `json:"bad_regex,omitempty"` // the path regex does not compile
 }
 type vhT struct {
 	Name    string   `json:"name,omitempty"`
@@ -432,7 +433,9 @@ func (rt rtT) v2() v2.Router {
 		rr.Match.DslExpressions = append(rr.Match.DslExpressions, v2.DslExpressionMatcher{Expression: d.expr()})
 	}
 	rr.Route.ClusterName = rt.Cluster
-	if rt.Bad {
+	if rt.BadRegex {
+		rr.Match.Prefix, rr.Match.Path, rr.Match.Regex = "", "", "(" // unparsable
+	} else if rt.Bad {
 		rr.Redirect = &v2.RedirectAction{ResponseCode: 999}
 	}
 	return rr
@@ -547,6 +550,9 @@ func rxMatch(pat, s string) bool {
 func (c cfgT) rxIDs(q reqT) (rx []int, dsl []int) {
 	for _, vh := range c {
 		for _, rt := range vh.Routes {
+			if rt.Bad {
+				continue // never part of an accepted table
+			}
 			if rt.RegexID != 0 {
 				if rxMatch(rt.Regex, q.Vars[types.VarPath]) {
 					rx = append(rx, rt.RegexID)
